@@ -56,7 +56,7 @@ impl Model {
 }
 
 /// applies the history to the real structure and the model, checking every query after every operation
-fn check_history(n: usize, ops: &[(u8, u8)]) -> Result<bool, String> {
+pub fn check_history(n: usize, ops: &[(u8, u8)]) -> Result<bool, String> {
    let mut uf = TrRelUnionFind::<u8>::default();
    let mut model = Model::new(n);
    let mut interesting = false;
@@ -107,7 +107,7 @@ fn check_history(n: usize, ops: &[(u8, u8)]) -> Result<bool, String> {
 }
 
 #[derive(Clone, Debug)]
-enum UfOp {
+pub enum UfOp {
    Add(u8),
    FindItem(u8),
    UnionAdd(u8, u8),
@@ -116,7 +116,7 @@ enum UfOp {
    FindId(u8),
 }
 
-fn check_uf(ops: &[UfOp]) -> Result<bool, String> {
+pub fn check_uf(ops: &[UfOp]) -> Result<bool, String> {
    let mut uf = UnionFind::<u8>::default();
    // naive partition: class label per item
    let mut label: std::collections::BTreeMap<u8, usize> = Default::default();
